@@ -122,6 +122,8 @@ func RunGME(p *GMEProg) string {
 	for _, e := range eps {
 		gmesim.SetUp(e, true)
 	}
+	var lastMu sync.Mutex
+	last := map[string][]string{}
 	mk := func(r uint64) *grpcgcp.GCPMultiEndpointOptions {
 		mes := map[string]*multiendpoint.MultiEndpointOptions{}
 		names := []string{"d", "r", "w"}
@@ -192,7 +194,15 @@ func RunGME(p *GMEProg) string {
 				}
 				r = mix(r)
 				if (i%2 == 0 && i/2 < p.Updates) || u > 0 {
-					gme.UpdateMultiEndpoints(mk(r))
+					o := mk(r)
+					if gme.UpdateMultiEndpoints(o) == nil && nu == 1 {
+						lastMu.Lock()
+						last = map[string][]string{}
+						for n, meo := range o.MultiEndpoints {
+							last[n] = meo.Endpoints
+						}
+						lastMu.Unlock()
+					}
 				} else {
 					e := eps[int(r>>7)%len(eps)]
 					gmesim.SetUp(e, false)
@@ -210,9 +220,34 @@ func RunGME(p *GMEProg) string {
 	case <-time.After(30 * time.Second):
 		return "C06|GCPMultiEndpoint workload did not finish within 30s"
 	}
-	gme.Close()
+	defer gme.Close()
 	if v, ok := bad.Load("panic"); ok {
 		return "C16,C15|panic in GCPMultiEndpoint workload: " + v.(string)
+	}
+	// C15: with every endpoint reachable again, routing of every MultiEndpoint follows within the bound
+	if nu == 1 {
+		lastMu.Lock()
+		final := last
+		lastMu.Unlock()
+		if len(final) == 0 {
+			o := mk(p.Seed)
+			for n, meo := range o.MultiEndpoints {
+				final[n] = meo.Endpoints
+			}
+		}
+		deadline := time.Now().Add(10 * time.Second)
+		for name, l := range final {
+			for {
+				got := gmesim.Probe(gme, name, 300*time.Millisecond)
+				if got == l[0] {
+					break
+				}
+				if time.Now().After(deadline) {
+					return fmt.Sprintf("C15|after the workload every endpoint is reachable, yet 10s later MultiEndpoint %q %v still routes to %q instead of %q", name, l, got, l[0])
+				}
+				time.Sleep(2 * time.Millisecond)
+			}
+		}
 	}
 	return ""
 }
